@@ -1,0 +1,58 @@
+//go:build verif
+
+package poly1305
+
+// Verification hooks for /verif (group aead). Add-only; compiled only with
+// -tags verif. They expose the portable and the assembly block-update paths
+// on a raw accumulator state, which the public API cannot select.
+
+// VerifState is the raw Poly1305 state (saturated 64-bit little-endian limbs).
+type VerifState struct {
+	H [3]uint64
+	R [2]uint64
+	S [2]uint64
+}
+
+func (v *VerifState) in() macState   { return macState{h: v.H, r: v.R, s: v.S} }
+func (v *VerifState) out(m macState) { v.H, v.R, v.S = m.h, m.r, m.s }
+
+// VerifInitialize loads (and clamps) a one-time key.
+func VerifInitialize(key *[32]byte) VerifState {
+	var m macState
+	initialize(key, &m)
+	var v VerifState
+	v.out(m)
+	return v
+}
+
+// VerifUpdateGeneric absorbs msg with the portable updateGeneric.
+func VerifUpdateGeneric(v *VerifState, msg []byte) {
+	m := v.in()
+	updateGeneric(&m, msg)
+	v.out(m)
+}
+
+// VerifFinalize runs the final reduction and addition of s.
+func VerifFinalize(out *[TagSize]byte, v *VerifState) {
+	m := v.in()
+	finalize(out, &m.h, &m.s)
+}
+
+// VerifSumGeneric is the portable one-shot MAC (macGeneric.Write + Sum).
+func VerifSumGeneric(out *[TagSize]byte, msg []byte, key *[32]byte) {
+	sumGeneric(out, msg, key)
+}
+
+// VerifMACGeneric is the portable incremental MAC.
+type VerifMACGeneric struct{ m macGeneric }
+
+func VerifNewMACGeneric(key *[32]byte) *VerifMACGeneric {
+	return &VerifMACGeneric{m: newMACGeneric(key)}
+}
+func (g *VerifMACGeneric) Write(p []byte) (int, error) { return g.m.Write(p) }
+func (g *VerifMACGeneric) Sum(out *[TagSize]byte)      { g.m.Sum(out) }
+func (g *VerifMACGeneric) State() VerifState {
+	var v VerifState
+	v.out(g.m.macState)
+	return v
+}
